@@ -858,5 +858,21 @@ m("c17-elasticity-zero-accepted", "C17", "x/feemarket/types/params.go",
   "\tif p.ElasticityMultiplier == 0 {\n\t\treturn fmt.Errorf(\"elasticity multiplier cannot be 0\")\n\t}\n\n", "",
   "rejects-zero-ElasticityMultiplier", "a zero divisor passes parameter validation")
 
+m("c18-accesslist-chainid-unbounded", "C18", "x/evm/types/access_list_tx.go",
+  "\tif _, err := types.SafeNewIntFromBigInt(tx.ChainId()); err != nil {\n\t\treturn nil, err\n\t}\n", "",
+  "newAccessListTx#chain-id-bounded", "a chain id above 256 bits panics")
+m("c18-effective-price-nil-basefee", "C18", "x/evm/types/dynamic_fee_tx.go",
+  "\tif baseFee == nil {\n\t\t// no base fee (London not active): same as go-ethereum's Transaction.AsMessage\n\t\treturn tx.GetGasFeeCap()\n\t}\n", "",
+  "nil-base-fee", "no base fee: nil dereference")
+m("c19-export-cropped-addresses", "C19", "x/evm/genesis.go",
+  "\t\tif len(ethAccount.GetAddress()) != common.AddressLength {\n\t\t\treturn false\n\t\t}\n", "",
+  "lists-20-byte-accounts-only", "an account with a 32-byte address is exported under a cropped address")
+m("c19-zero-height-key-sliced", "C19", "app/export.go",
+  "sdk.ValAddress(stakingtypes.AddressFromValidatorsKey(iter.Key()))", "sdk.ValAddress(iter.Key()[1:])",
+  "store-key-sliced-by-hand", "validator keys parsed with the pre-0.43 layout")
+m("c19-registercoin-checks-name", "C19", "x/erc20/keeper/proposals.go",
+  "k.IsDenomRegistered(ctx, coinMetadata.Base)", "k.IsDenomRegistered(ctx, coinMetadata.Name)",
+  "duplicate-check-keyed-by-Base", "the duplicate check never hits")
+
 json.dump(M, open('/verif/mutants.json', 'w'), indent=1)
 print(len(M), "mutants written")
